@@ -175,6 +175,19 @@ impl Array {
             }
         };
 
+        // the dot product of two vectors requires the same length
+        let is_vectors_valid = a.dimensions.len() >= 2
+            || b.dimensions.len() >= 2
+            || a_transpose
+            || b_transpose
+            || a.dimensions[0] == b.dimensions[0];
+        assert!(
+            is_vectors_valid,
+            "error: the dimensions {:?}, and {:?} are not compatible",
+            a.dimensions,
+            b.dimensions
+        );
+
         let leading_count = input_dimensions.len().saturating_sub(2);
         let output_dimensions: Vec<usize> = input_dimensions
             .iter()
